@@ -66,10 +66,13 @@ class Repository(ABC):
 
 
 class TextualRepository(Repository):
-    def __positional_to_delimited_field(self, f: Field) -> Field:
-        f.ending_position = f.size
-        f.starting_position = 0
-        return f
+    def __with_token_positions(self, f: Field, action, arg):
+        positions = (f.starting_position, f.ending_position)
+        f.starting_position, f.ending_position = 0, f.size
+        try:
+            return action(arg)
+        finally:
+            f.starting_position, f.ending_position = positions
 
     def __positional_reading(self, line: str) -> List[Any]:
         for field in self._fields:
@@ -77,12 +80,9 @@ class TextualRepository(Repository):
         return self.values
 
     def __delimted_reading(self, line: str, delimiter: str) -> List[Any]:
-        fields = [
-            self.__positional_to_delimited_field(f) for f in self._fields
-        ]
         values = [v.strip() for v in line.split(delimiter)]
-        for field, value in zip(fields, values):
-            field.read(value)
+        for field, value in zip(self._fields, values):
+            self.__with_token_positions(field, field.read, value)
         return self.values
 
     # Override
@@ -114,11 +114,11 @@ class TextualRepository(Repository):
         return line + "\n"
 
     def __delimted_writing(self, values: List[Any], delimiter: str) -> str:
-        fields = [
-            self.__positional_to_delimited_field(f) for f in self._fields
-        ]
         self.values = values
-        separated = [field.write("").strip() for field in fields]
+        separated = [
+            self.__with_token_positions(field, field.write, "").strip()
+            for field in self._fields
+        ]
         return delimiter.join(separated) + "\n"
 
     # Override
